@@ -573,8 +573,8 @@ add('C01.added_producer_off_by_one', 'C01', ('transformation_performer.py', "   
     "          instruction.producer\n          - len(self._original_op_id_map[transformation_inst.subgraph_id]) - 1\n"), 'C01.R12', 'added-op producer looked up one slot early')
 add('C19.map_of_subgraph_zero', 'C19', ('transformation_performer.py', "      consumers.append(\n          self._original_op_id_map[transformation_inst.subgraph_id][\n              original_op_id\n          ]\n      )",
     "      consumers.append(self._original_op_id_map[0][original_op_id])"), 'C19.R9', 'consumer ids translated with the map of subgraph 0')
-add('C01.shared_added_lists', 'C01', ('transformation_performer.py', "    for subgraph in tflite_model.subgraphs:\n      self._original_op_id_map.append(list(range(len(subgraph.operators))))\n      self._added_op_id_map.append([])",
-    "    for subgraph in tflite_model.subgraphs:\n      self._original_op_id_map.append(list(range(len(subgraph.operators))))\n    self._added_op_id_map = [[]] * len(tflite_model.subgraphs)"), 'C01.R8', 'all subgraphs share one added-op list')
+add('C01.twin_shared_added_lists', 'C01', ('transformation_performer.py', "    for subgraph in tflite_model.subgraphs:\n      self._original_op_id_map.append(list(range(len(subgraph.operators))))\n      self._added_op_id_map.append([])",
+    "    for subgraph in tflite_model.subgraphs:\n      self._original_op_id_map.append(list(range(len(subgraph.operators))))\n    self._added_op_id_map = [[]] * len(tflite_model.subgraphs)"), (), 'all subgraphs share one added-op list: harmless, only the entry appended last is ever read back (chains are applied back to back)', kind='twin')
 
 TIGF = 'transformation_instruction_generator.py'
 add('C02.output_not_recorded', 'C02', (TIGF, "      if tensor_id in subgraph.outputs:\n        consumers.insert(0, -1)\n", "      if tensor_id in subgraph.outputs and not consumers:\n        consumers.insert(0, -1)\n"),
@@ -621,3 +621,40 @@ add('C19.shift_other_subgraph', 'C19', (TP, "    self._original_op_id_map[subgra
 add('C01.twin_first_helper_inline', 'C01', (TP, "    op_id_map = self._original_op_id_map[subgraph_id]\n    for original_op_id, current_position in enumerate(op_id_map):\n      if current_position >= op_position:\n        return original_op_id\n    return len(op_id_map)",
     "    positions = self._original_op_id_map[subgraph_id]\n    candidates = [i for i, pos in enumerate(positions) if pos >= op_position]\n    return candidates[0] if candidates else len(positions)"),
     (), 'first-original-op helper written as a comprehension', kind='twin')
+
+add('C13.memo_verdict', 'C13', (RM, """            try:
+              algorithm_manager.check_op_quantization_config(
+                  recipe.algorithm_key, target_op_name, recipe.op_config
+              )
+            except ValueError:
+              continue  # Skip the recipe if it is not supported.""", """            memo = self.__dict__.setdefault('_verdicts', {})
+            memo_key = (recipe.regex, recipe.operation, target_op_name)
+            if memo_key not in memo:
+              try:
+                algorithm_manager.check_op_quantization_config(
+                    recipe.algorithm_key, target_op_name, recipe.op_config
+                )
+                memo[memo_key] = True
+              except ValueError:
+                memo[memo_key] = False
+            if not memo[memo_key]:
+              continue  # Skip the recipe if it is not supported."""),
+    ('C13.R6', 'C13.R7', 'C13.R8'), 'support verdict memoised per (regex, rule op, target op) (seeded b5-C13)')
+add('C10.need_calibration_after_catch_all', 'C10', (RM, "    for op_quant_config in self.get_quantization_recipe():\n      if (\n          op_quant_config['op_config']['compute_precision']",
+    "    rules = self.get_quantization_recipe()\n    for idx in reversed(range(len(rules))):\n      if rules[idx]['regex'] == '.*' and rules[idx]['operation'] == _TFLOpName.ALL_SUPPORTED:\n        rules = rules[idx:]\n        break\n    for op_quant_config in rules:\n      if (\n          op_quant_config['op_config']['compute_precision']"),
+    'C10.R6', 'need_calibration ignores the rules before the last catch-all (seeded b5-C10)')
+add('C12.twin_need_calibration_regex', 'C12', (RM, "    for op_quant_config in self.get_quantization_recipe():\n      if (\n          op_quant_config['op_config']['compute_precision']",
+    "    for op_quant_config in self.get_quantization_recipe():\n      if op_quant_config['regex'] is None:\n        continue\n      if (\n          op_quant_config['op_config']['compute_precision']"),
+    (), 'need_calibration reads an entry-level key (not an op_config key)', kind='twin')
+add('C09.calibrate_func_per_type', 'C09', ('calibrator.py', "        op_scope = self._get_op_scope(op, subgraph.tensors)\n        algorithm_name, _ = model_recipe_manager.get_quantization_configs(\n            op_key, op_scope\n        )",
+    "        if op_key not in seen_algorithms:\n          op_scope = self._get_op_scope(op, subgraph.tensors)\n          seen_algorithms[op_key] = model_recipe_manager.get_quantization_configs(\n              op_key, op_scope\n          )[0]\n        algorithm_name = seen_algorithms[op_key]"),
+    ('C09.R10',), 'recipe looked up once per operator TYPE (seeded b5-C09)')
+
+add('C03.f13', 'C03', (TIG, "          if consumer_id in producer_trans_rule.consumers:\n            producer_trans_rule.consumers.remove(consumer_id)\n        transformations.append(\n            qtyping.TransformationInst(\n                qtyping.QuantTransformation.QUANTIZE_TENSOR,\n                trans_rule.tensor_id,\n                trans_rule.producer,\n                trans_rule.consumers,\n                producer_trans_rule.parameters,",
+    "          producer_trans_rule.consumers.remove(consumer_id)\n        transformations.append(\n            qtyping.TransformationInst(\n                qtyping.QuantTransformation.QUANTIZE_TENSOR,\n                trans_rule.tensor_id,\n                trans_rule.producer,\n                trans_rule.consumers,\n                producer_trans_rule.parameters,"),
+    'C03.R4', 'defect F13 returns: unguarded remove in the requantize branch', control=True)
+add('C08.f13', 'C08', (TIG, "          if consumer_id in producer_trans_rule.consumers:\n            producer_trans_rule.consumers.remove(consumer_id)\n        transformations.append(\n            qtyping.TransformationInst(\n                qtyping.QuantTransformation.QUANTIZE_TENSOR,\n                trans_rule.tensor_id,\n                trans_rule.producer,\n                trans_rule.consumers,\n                producer_trans_rule.parameters,",
+    "          producer_trans_rule.consumers.remove(consumer_id)\n        transformations.append(\n            qtyping.TransformationInst(\n                qtyping.QuantTransformation.QUANTIZE_TENSOR,\n                trans_rule.tensor_id,\n                trans_rule.producer,\n                trans_rule.consumers,\n                producer_trans_rule.parameters,"),
+    'C08.R6', 'defect F13 returns: concat([x, x, z]) rejected under the static-range recipes', control=True)
+add('C04.tanh_symmetry_from_zero_point', 'C04', ('algorithms/utils/min_max_quantize_utils.py', "  if symmetric:\n    float_min = -float_max\n  return (float_min, float_max)", "  if not np.any(tensor_params.zero_point):\n    float_min = -float_max\n  return (float_min, float_max)"),
+    'C04.R10', 'symmetry inferred from a zero zero point: TANH int8 asymmetric gets a range that does not give back 1/128 (seeded b5-C08)')
